@@ -206,4 +206,26 @@ PROPS = {
         quick=dict(shards=8, checks=25, extra=["TestSharedParams"], timeout=900, parallel=8, gomaxprocs=16),
         thorough=dict(shards=8, checks=250, extra=["TestSharedParams"], timeout=3400, parallel=8, gomaxprocs=16),
     ),
+    "C08": dict(
+        pkg="c0809", env={"VERIF_PROP": "C08"},
+        aux_build=[dict(out="decworker", pkg="./cmd/decworker")],
+        technique="structured-mutation fuzzing (rapid) of valid streams of every codec through every decoding entry point, plus enumerated truncations and single-header-byte corruptions; thorough adds coverage-guided native Go fuzzing",
+        level_text="Exploration: a pool of small valid streams (library and reference encoders, third-party HTJ2K fixtures) is mutated by drawn programs (truncation, byte/field/length/word edits, segment delete/duplicate/move/overwrite, splices, random tails, marker insertion) and decoded through all 23 entry points (package Decode functions, the JPEG 2000 decoder object and its accessors, the HT factory, the codestream parser, the 14 registered codecs, RLE with hostile FrameInfo) inside worker child processes; every truncation offset and every header byte with a hostile value set is enumerated.",
+        level_note="A recovered Go panic or a fatal stack overflow is a violation; allocation aborts and hangs are C09's subject and only counted. Trusts the worker protocol and the Go runtime.",
+        rule=("rapid-generated and enumerated (entry point, byte string[, FrameInfo]). Non-trivial: the input still starts with the family's start marker (it reaches real parsing) and differs from its valid parent. Distinct = hash of the case."),
+        assumptions=COMMON_ASSUME,
+        quick=dict(shards=16, checks=1500, extra=["TestValid", dict(run="TestTruncations", shards=8), dict(run="TestHeaderBytes", shards=8)], timeout=900, parallel=16),
+        thorough=dict(shards=16, checks=60000, extra=["TestValid", dict(run="TestTruncations", shards=8), dict(run="TestHeaderBytes", shards=16)], timeout=3400),
+    ),
+    "C09": dict(
+        pkg="c0809", env={"VERIF_PROP": "C09"},
+        aux_build=[dict(out="decworker", pkg="./cmd/decworker")],
+        technique="structured-mutation fuzzing (rapid) with a resource oracle: every decode runs in a worker child under RLIMIT_AS with per-call thread-CPU time, allocation totals and sampled peak heap, judged against the budget computed by an independent header pre-parser",
+        level_text="Exploration: the same generated and enumerated inputs as C08; an input is in the property's domain when its length is <= 64 KiB and the first frame header found by the independent pre-parser (every plausible reading, saturating arithmetic) declares S <= 2^22 samples or nothing. In-domain inputs must finish within 10 s of CPU on the decoding thread (CPU <= wall, so a busy machine cannot raise an alarm) and within a peak heap of 512 MiB + 64*S; an out-of-memory abort under a 6 GiB address space or a hang (watchdog 25 s with >= 12 s process CPU) is a violation after one confirmation run.",
+        level_note="Peak heap is the sampled live-heap growth (1 ms sampler, GC percent 10) and is only consulted when the cumulative allocation already exceeds the budget; hangs that need deep un-generated state stay unseen.",
+        rule=("rapid-generated and enumerated (entry point, byte string[, FrameInfo]). Non-trivial: the input starts with the family's start marker, differs from its valid parent and the pre-parser found a frame header (the budget formula was exercised). Distinct = hash of the case."),
+        assumptions=COMMON_ASSUME + ["getrusage(RUSAGE_THREAD) of the locked decoding thread is a lower bound of the call's wall time"],
+        quick=dict(shards=16, checks=1500, extra=["TestValid", dict(run="TestTruncations", shards=8), dict(run="TestHeaderBytes", shards=8)], timeout=900, parallel=16),
+        thorough=dict(shards=16, checks=60000, extra=["TestValid", dict(run="TestTruncations", shards=8), dict(run="TestHeaderBytes", shards=16)], timeout=3400),
+    ),
 }
